@@ -7,7 +7,7 @@
    handler's parameter / local lists, into the script's handler list, into the constant pool. *)
 From Coq Require Import ZArith List Bool String.
 From Coq.Strings Require Import Byte.
-From DRX Require Import Py.PyBytes Py.PyStr Py.PyString Model.LingoAst Model.LingoGen Model.LingoOps.
+From DRX Require Import Py.PyBytes Py.PyStr Py.PyString Model.LingoAst Model.LingoGen Model.LingoOps Gen.Gen_Lingo.
 Import ListNotations.
 Open Scope string_scope.
 Open Scope list_scope.
@@ -38,6 +38,14 @@ Definition bsym (o : binop) : string :=
   end.
 Definition is_sprite_op (o : binop) : bool := match o with Intersects | Within => true | _ => false end.
 
+(* objects whose properties are read by number: the <property> of sound / sprite / cast <id> *)
+Inductive ofam := FSound | FSprite | FCast | FVideo.
+Definition fcode (f : ofam) : Z := match f with FSound => 4 | FSprite => 6 | FCast => 9 | FVideo => 13 end.
+Definition fclass (f : ofam) : lclass := match f with FSound => KSound | FSprite => KSprite | FCast | FVideo => KCast end.
+(* the property names, by number (the decompiler's tables, regenerated from /repo on every run) *)
+Definition ftable (f : ofam) : list string :=
+  match f with FSound => SOUND_PROPERTIES | FSprite => SPRITE_PROPERTIES | FCast => CAST_PROPERTIES | FVideo => VIDEO_PROPERTIES end.
+
 Inductive expr :=
 | EInt (n : Z)                      (* inline integer: zero, one-byte or two-byte form *)
 | EConst (k : nat)                  (* k-th constant of the pool (string, 32-bit integer, float) *)
@@ -49,7 +57,8 @@ Inductive expr :=
 | ECall (f : nat) (args : list expr)       (* external handler names[f] *)
 | ELCall (f : nat) (args : list expr)      (* handler number f of this script *)
 | EList (items : list expr)
-| EPList (items : list expr).              (* key, value, key, value, ... *)
+| EPList (items : list expr)               (* key, value, key, value, ... *)
+| EObj (f : ofam) (pid : nat) (a : expr).  (* the <property number pid> of <sound / sprite / cast> a *)
 
 Definition b (z : Z) : byte := byte_of_Z z.
 
@@ -85,6 +94,7 @@ Fixpoint compile_e (e : expr) : bytes :=
   | ELCall f args => flat_map compile_e args ++ compile_arglist (List.length args) true ++ [b 86; b (Z.of_nat f)]
   | EList items => flat_map compile_e items ++ compile_arglist (List.length items) true ++ [b 30]
   | EPList items => flat_map compile_e items ++ compile_arglist (List.length items) true ++ [b 31]
+  | EObj f pid x => compile_e x ++ compile_int (Z.of_nat pid) ++ [b 92; b (fcode f)]
   end.
 
 (* number of instructions *)
@@ -92,6 +102,7 @@ Fixpoint ninstr (e : expr) : nat :=
   match e with
   | EBin _ x y => ninstr x + ninstr y + 1
   | ENeg x | ENot x => ninstr x + 1
+  | EObj _ _ x => ninstr x + 2
   | ECall _ args | ELCall _ args => fold_right (fun x a => ninstr x + a) 0 args + 2
   | EList items | EPList items => fold_right (fun x a => ninstr x + a) 0 items + 2
   | _ => 1
@@ -141,6 +152,10 @@ Fixpoint reify_e (en : env) (pc : Z) (e : expr) {struct e} : node :=
   | EPList items =>
     let '(ns, pa) := reify_args pc items in
     ToDict (pa + arglist_len (List.length items)) (LoadList "<load_list>" pa (rev ns))
+  | EObj f pid x =>
+    let po := pc + zlen (compile_e x) + zlen (compile_int (Z.of_nat pid)) in
+    let o := reify_e en pc x in
+    Accessor po (ObjRef (fclass f) (name_of o) po o) (nth pid (ftable f) "")
   end.
 
 Fixpoint reify_args (en : env) (pc : Z) (l : list expr) : list node * Z :=
@@ -160,7 +175,7 @@ Fixpoint globals_e (en : env) (pc : Z) (e : expr) {struct e} : list node :=
   match e with
   | EGlob n => [Leaf KGlobal (nm en n) pc true]
   | EBin _ x y => globals_e en pc x ++ globals_e en (pc + zlen (compile_e x)) y
-  | ENeg x | ENot x => globals_e en pc x
+  | ENeg x | ENot x | EObj _ _ x => globals_e en pc x
   | ECall _ args | ELCall _ args | EList args | EPList args => go_args pc args
   | _ => []
   end.
@@ -190,6 +205,7 @@ Fixpoint wf_e (en : env) (e : expr) {struct e} : Prop :=
                     (fix all (l : list expr) : Prop := match l with [] => True | x :: r => wf_e en x /\ all r end) items
   | EPList items => Z.of_nat (List.length items) < 65536 /\ Nat.even (List.length items) = true /\
                     (fix all (l : list expr) : Prop := match l with [] => True | x :: r => wf_e en x /\ all r end) items
+  | EObj f pid x => (pid < List.length (ftable f))%nat /\ wf_e en x
   end.
 Fixpoint wf_args (en : env) (l : list expr) : Prop := match l with [] => True | x :: r => wf_e en x /\ wf_args en r end.
 
@@ -203,7 +219,8 @@ Inductive target := TLoc (i : nat) | TPar (i : nat) | TGlob (n : nat) | TProp (n
 Inductive stmt :=
 | SSet (t : target) (e : expr)                 (* set t = e *)
 | SCallS (f : nat) (args : list expr)          (* external handler, statement position *)
-| SLCallS (f : nat) (args : list expr).        (* handler of this script, statement position *)
+| SLCallS (f : nat) (args : list expr)         (* handler of this script, statement position *)
+| SSetObj (f : ofam) (pid : nat) (o v : expr). (* set the <property pid> of <sound / sprite / cast> o to v *)
 
 Definition compile_store (t : target) : bytes :=
   match t with
@@ -217,11 +234,13 @@ Definition compile_s (s : stmt) : bytes :=
   | SSet t e => compile_e e ++ compile_store t
   | SCallS f args => flat_map compile_e args ++ compile_arglist (List.length args) false ++ [b 87; b (Z.of_nat f)]
   | SLCallS f args => flat_map compile_e args ++ compile_arglist (List.length args) false ++ [b 86; b (Z.of_nat f)]
+  | SSetObj f pid o v => compile_e o ++ compile_e v ++ compile_int (Z.of_nat pid) ++ [b 93; b (fcode f)]
   end.
 Definition ninstr_s (s : stmt) : nat :=
   match s with
   | SSet _ e => (ninstr e + 1)%nat
   | SCallS _ args | SLCallS _ args => (fold_right (fun x a => ninstr x + a) 0 args + 2)%nat
+  | SSetObj _ _ o v => (ninstr o + (ninstr v + 2))%nat
   end.
 
 (* the declared properties of the script, as the parser's context holds them *)
@@ -247,12 +266,18 @@ Definition reify_s (en : env) (props : list string) (pc : Z) (s : stmt) : node :
     let '(ns, pa) := reify_args en pc args in
     let pcall := pa + arglist_len (List.length args) in
     Stmt pcall (Call (nth f (e_lfuncs en) "") pcall (Some (LoadList "load_list" pa (rev ns))) true false true)
+  | SSetObj f pid o v =>
+    let pv := pc + zlen (compile_e o) in
+    let ps := pv + zlen (compile_e v) + zlen (compile_int (Z.of_nat pid)) in
+    let on := reify_e en pc o in
+    Stmt ps (Binary "assign" ps (Accessor ps (ObjRef (fclass f) (name_of on) ps on) (nth pid (ftable f) "")) (reify_e en pv v))
   end.
 
 Definition globals_s (en : env) (pc : Z) (s : stmt) : list node :=
   match s with
   | SSet t e => globals_e en pc e ++ match t with TGlob n => [Leaf KGlobal (nm en n) (pc + zlen (compile_e e)) true] | _ => [] end
   | SCallS _ args | SLCallS _ args => globals_args en pc args
+  | SSetObj _ _ o v => globals_e en pc o ++ globals_e en (pc + zlen (compile_e o)) v
   end.
 
 Definition wf_target (en : env) (t : target) : Prop :=
@@ -266,6 +291,7 @@ Definition wf_s (en : env) (s : stmt) : Prop :=
   | SSet t e => wf_target en t /\ wf_e en e
   | SCallS f args => (f < List.length (e_names en))%nat /\ Z.of_nat f < 256 /\ Z.of_nat (List.length args) < 65536 /\ wf_args en args
   | SLCallS f args => (f < List.length (e_lfuncs en))%nat /\ Z.of_nat f < 256 /\ Z.of_nat (List.length args) < 65536 /\ wf_args en args
+  | SSetObj f pid o v => (pid < List.length (ftable f))%nat /\ wf_e en o /\ wf_e en v
   end.
 
 (* a straight-line handler: its statements, then the handler's exit opcode *)
